@@ -355,6 +355,8 @@ int convert_msa_to_internal(struct msa* msa, int type)
                                 WARNING_MSG("there should be no character not matching the alphabet");
                                 WARNING_MSG("offending character: >>>%c<<<", seq->seq[j]);
                                 /* exit(0); */
+                                /* treat as ambiguous residue (X for protein, N for nucleotides) */
+                                seq->s[j] = (t[(int)'X'] != -1) ? t[(int)'X'] : t[(int)'N'];
                         }else{
                                 seq->s[j] = t[(int) seq->seq[j]];
                         }
